@@ -30,7 +30,7 @@ CHECKS = {
              "Fraction registry both evaluations and the reference model must agree exactly (value, dimension, error class, no float contamination); in the "
              "float registry agreement is required within a propagated error bound, away from ties. Reflected and in-place forms (scalars and ndarrays) "
              "must equal the plain form and leave every operand but the in-place target untouched. Sampling only.",
-        note="Leaf units are restricted to rational, positively scaled multiplicative units; ill-conditioned float trees (near-zero divisors, nested powers > 4) are skipped and counted. One known finding (int ** negative power) is excluded by construction in the tree tier and reported by the forms tier. Later additions: comparisons across offset units (offsetcmp), exact Fraction magnitudes in the float registry, auto_reduce_dimensions configuration, bare-number ordering/equality. Round 6: in-place forms that NumPy refuses (integer target, wider operand) leave the target denoting what it denoted (judged physically). Round 7: in-place chains (looked-at quantity changed by *=, /=, **= over exponents -3..3, then used again).",
+        note="Leaf units are restricted to rational, positively scaled multiplicative units; ill-conditioned float trees (near-zero divisors, nested powers > 4) are skipped and counted. One known finding (int ** negative power) is excluded by construction in the tree tier and reported by the forms tier. Later additions: comparisons across offset units (offsetcmp), exact Fraction magnitudes in the float registry, auto_reduce_dimensions configuration, bare-number ordering/equality. Round 6: in-place forms that NumPy refuses (integer target, wider operand) leave the target denoting what it denoted (judged physically). Round 7: in-place chains (looked-at quantity changed by *=, /=, **= over exponents -3..3, then used again). Round 8: plain + / - on array operands evaluated twice (delta and absolute units); offset/log operands next to another dimension raise DimensionalityError.",
         design="5/C03"),
     "C04": dict(
         technique="bounded-exhaustive enumeration of unit containers over a 3-letter alphabet (all ordered pairs, sampled triples) in 3 exponent types x 3 layers against a dict model of the free abelian group; Hypothesis containers over real unit names; Hypothesis integer matrices for pi-theorem with own Fraction rank/null-space oracle",
@@ -57,7 +57,7 @@ CHECKS = {
              "from nonmult.rst) or OffsetUnitCalculusError. ndarray in-place forms must equal the functional forms and leave the other operand untouched; "
              "compound units containing an offset unit never convert to another dimension. Log units are checked against x_lin = scale*base**(x/factor), "
              "inverses, scalar vs in-place array conversion, and well-formedness of arithmetic results. Sampling over a small finite unit set x random magnitudes.",
-        note="Arithmetic on logarithmic units is documented only through conversions: validity predicate, one known finding (delta_<log unit> undefined). Later additions: right operands with a dimensionless scale in their units, parse_units(text, as_delta=...) relations for compound and powered offset strings. Round 6: sub-check redef - an offset unit whose definition is replaced by a redefining context or a second define() follows the affine map in force (absolute, delta, difference, offset + delta, alias) in Fraction/float/Decimal registries. Round 7: sub-check order (ordering across offset and logarithmic units); refused in-place conversions always checked.",
+        note="Arithmetic on logarithmic units is documented only through conversions: validity predicate, one known finding (delta_<log unit> undefined). Later additions: right operands with a dimensionless scale in their units, parse_units(text, as_delta=...) relations for compound and powered offset strings. Round 6: sub-check redef - an offset unit whose definition is replaced by a redefining context or a second define() follows the affine map in force (absolute, delta, difference, offset + delta, alias) in Fraction/float/Decimal registries. Round 7: sub-check order (ordering across offset and logarithmic units); refused in-place conversions always checked. Round 8: comparing array quantities in dB/Np/percent/degree with plain numbers leaves the operand alone.",
         design="5/C06"),
     "C07": dict(
         technique="bounded-exhaustive enumeration of expression trees x spelling variants with a Python-operator evaluation of the tree as oracle; Hypothesis larger trees in float/Decimal/Fraction registries; mutation-based malformed inputs; audit-hook monitored parsing of hostile and random strings; coverage-guided atheris/libFuzzer campaigns (thorough tier) with an audit-hook, a Python-grammar differential and a structural oracle inside the target",
@@ -94,7 +94,7 @@ CHECKS = {
              "rendered with permuted unit/prefix lines, spacing, comments and literal spellings and loaded from a list of lines, a file, define() calls, a file with "
              "@import and a cold+warm disk cache; every answer must equal the model and agree across paths. (c) One ill-formed statement out of 25 kinds is "
              "inserted at a random place: loading or the first use of the name must raise.",
-        note="Generated contexts are exercised by C11/C12. Units added via define() are not asked for compatible-unit listings (known finding of C13). Later additions: load paths cache_lines / cache_import with decoy definition sets, @defaults, @alias directives, case-insensitive table, power rules in @system, cross-process cache check (xcache). Round 6: faults also through load_definitions on a living registry; references to undefined groups/units; refused @system blocks and refused redefinitions (on_redefinition='raise') leave nothing behind; each fault x path x number type enumerated once; cross-process cache script records every probe separately and covers registries built from lines. Round 7: offset units without symbol / with aliases and their delta spellings; block headers with runs of blanks and tabs.",
+        note="Generated contexts are exercised by C11/C12. Units added via define() are not asked for compatible-unit listings (known finding of C13). Later additions: load paths cache_lines / cache_import with decoy definition sets, @defaults, @alias directives, case-insensitive table, power rules in @system, cross-process cache check (xcache). Round 6: faults also through load_definitions on a living registry; references to undefined groups/units; refused @system blocks and refused redefinitions (on_redefinition='raise') leave nothing behind; each fault x path x number type enumerated once; cross-process cache script records every probe separately and covers registries built from lines. Round 7: offset units without symbol / with aliases and their delta spellings; block headers with runs of blanks and tabs. Round 8: a group's own units (non_inherited_unit_names) as written.",
         design="5/C10"),
     "C11": dict(
         technique="Hypothesis over bundled and randomly generated contexts (rule graphs with monomial equations, parameters, overlapping rules, redefinitions) x activation forms x stacks; reference oracle = own BFS over dimension vectors (all shortest chains, recency precedence) with exact evaluation of the rule equations using factors from an independent definition reader",
@@ -113,7 +113,7 @@ CHECKS = {
              "get_root_units, to_root_units, get_base_units, prefixed units, compatible-unit listings, number of active contexts) must equal what the model's stack "
              "implies; a failing activation must raise and change nothing; after unwinding, the battery must equal the one recorded before the first activation. "
              "Random sequences up to 25 operations and a shared-Context check (two registries, re-entry with other parameters) complete it.",
-        note="The former known finding (base-units cache across context stacks) is repaired in /repo (1d885d8) and checked like everything else. Units defined while a redefining context is active are C13's clause. Later additions: per-call contexts (to/ito with a context name) in the operation alphabet; on_redefinition='raise' policy observed after every step; activation with an unhashable parameter value (refused or accepted-and-disabled: nothing left behind). Round 6: cold probes (spare units asked once, right after a failed activation: the battery itself warms the caches). Round 7: reading of compound unit strings with offset units across contexts; Context objects with an unresolvable rule endpoint.",
+        note="The former known finding (base-units cache across context stacks) is repaired in /repo (1d885d8) and checked like everything else. Units defined while a redefining context is active are C13's clause. Later additions: per-call contexts (to/ito with a context name) in the operation alphabet; on_redefinition='raise' policy observed after every step; activation with an unhashable parameter value (refused or accepted-and-disabled: nothing left behind). Round 6: cold probes (spare units asked once, right after a failed activation: the battery itself warms the caches). Round 7: reading of compound unit strings with offset units across contexts; Context objects with an unresolvable rule endpoint. Round 8: first activation of Context objects (derived-dimension / unit-name / Unit endpoints, parameter by keyword, default or inherited) equals later ones.",
         design="5/C12"),
     "C13": dict(
         technique="model-based (stateful) testing with Hypothesis operation sequences: every answer of a long-lived registry is compared with the answer of a twin built fresh from the declarative state (differential against a fresh registry), each question put to an untouched copy of the twin; registry-isolation differential",
@@ -123,7 +123,7 @@ CHECKS = {
              "None, group edits, building and using a second registry). After each state change a twin is built from the definition text plus the logged "
              "definitions and settings; subject and twin must agree on every answer, and a brand-new registry replays the final state. A second tier does the "
              "same on the bundled registry (contexts and systems), a third checks that nothing done to a second registry changes the first.",
-        note="Three known findings are excluded by construction/narrow class: units from define() missing in compatible-unit listings, definitions made inside a redefining context, double prefixes (the base-units cache across context stacks is repaired in /repo, 1d885d8). Deep copy is used to hand every question an untouched twin. Later additions: motifs (enter/leave redefining context, ask-define-ask, failing activation then retry, default_system switches, API context with keyword parameter, to_compact around a late prefix, get_name/get_symbol queries, defined names that also read as prefix + unit). Round 6: sub-check redefine (questions and replaced definitions vs a registry built from the final text; found the stale-cache defect repaired in 7c97a2d); xcache with line-built registries sharing a cache folder. Round 7: listing motif; conversions of one pair with several magnitude types.",
+        note="Three known findings are excluded by construction/narrow class: units from define() missing in compatible-unit listings, definitions made inside a redefining context, double prefixes (the base-units cache across context stacks is repaired in /repo, 1d885d8). Deep copy is used to hand every question an untouched twin. Later additions: motifs (enter/leave redefining context, ask-define-ask, failing activation then retry, default_system switches, API context with keyword parameter, to_compact around a late prefix, get_name/get_symbol queries, defined names that also read as prefix + unit). Round 6: sub-check redefine (questions and replaced definitions vs a registry built from the final text; found the stale-cache defect repaired in 7c97a2d); xcache with line-built registries sharing a cache folder. Round 7: listing motif; conversions of one pair with several magnitude types. Round 8: isolation against a second registry built from other definitions of the same names, with context switches in the first.",
         design="5/C13"),
     "C14": dict(
         technique="complete enumeration of every unit x every declared system against allowed-unit sets and exact factors from an independent definition reader; Hypothesis compound quantities, generated systems (both rule forms, power-of-root units) and model-based group/system edit histories checked against an own closure model",
@@ -153,7 +153,7 @@ CHECKS = {
              "functions are compared in their own unit only; order/equality-sensitive ones use bit/byte/KiB so that re-expression is exact. Every same-dimension "
              "slot is also filled with another dimension (must raise DimensionalityError); offset-unit arrays are run through 16 operations in both registry "
              "modes and operand orders and compared with the operator form; inputs must be unchanged after non in-place calls; names without a recipe are listed in evidence.",
-        note="23 known-finding classes with two root causes: (1) mod/remainder/fmod/floor_divide do not convert their operands (pinned by the existing test-suite), (2) the ufunc implementations bypass the offset-unit rules. Functions without a recipe are reported, not claimed. Later additions: optional unit arguments given late (clip/nan_to_num/max/min/sum initial), reductions with axis+where, quantity exponents; recipes referenced by name; histories of ndarray-method calls and in-place state changes compared with fresh quantities (sub-check methods); values of the pool units written in the check (not read from the definition files), more angle units. Round 6: a quarter of the calls run in an auto_reduce_dimensions=True registry with operand units that repeat a dimension. Round 7: 0-d and scalar-Quantity exponents, force_ndarray registries, bare boolean operands.",
+        note="23 known-finding classes with two root causes: (1) mod/remainder/fmod/floor_divide do not convert their operands (pinned by the existing test-suite), (2) the ufunc implementations bypass the offset-unit rules. Functions without a recipe are reported, not claimed. Later additions: optional unit arguments given late (clip/nan_to_num/max/min/sum initial), reductions with axis+where, quantity exponents; recipes referenced by name; histories of ndarray-method calls and in-place state changes compared with fresh quantities (sub-check methods); values of the pool units written in the check (not read from the definition files), more angle units. Round 6: a quarter of the calls run in an auto_reduce_dimensions=True registry with operand units that repeat a dimension. Round 7: 0-d and scalar-Quantity exponents, force_ndarray registries, bare boolean operands. Round 8: ndarray methods also compared with their function forms, on scaled dimensionless units too.",
         design="5/C16"),
     "C17": dict(
         technique="Hypothesis-generated signatures, unit specifications, call shapes and arguments for ureg.wraps / ureg.check, checked against an independent re-implementation of the documented contract with exact factors from an independent definition reader; enumeration of decoration-time errors",
@@ -173,7 +173,7 @@ CHECKS = {
              "must keep type, public fields and message. Every binary operator and ordering between Quantity/Unit objects of two registries (fresh, deep-copied, "
              "application) must raise ValueError. Edits on either side of a deep-copied pair (definitions, contexts, groups, systems, default system/format) must "
              "never change the other side's battery, and objects reached through the copy must belong to it. The lazily built default registry must answer like an explicit one.",
-        note="Round-trip equality is judged on content, not with == (unpickled objects belong to the application registry by design). Unit ** Quantity and in-place operators on Units are not operations and are skipped. Later additions: Measurements in the ownership list of deep copies, both ways of replacing the application registry; the core of the cross-registry space is enumerated (operators x operand kinds incl. attribute-obtained units x fresh/copy/copy-of-copy x side); round trips in Fraction/Decimal registries with fractional exponents (exponent type compared). Round 7: the battery uses a prefix defined after the copy.",
+        note="Round-trip equality is judged on content, not with == (unpickled objects belong to the application registry by design). Unit ** Quantity and in-place operators on Units are not operations and are skipped. Later additions: Measurements in the ownership list of deep copies, both ways of replacing the application registry; the core of the cross-registry space is enumerated (operators x operand kinds incl. attribute-obtained units x fresh/copy/copy-of-copy x side); round trips in Fraction/Decimal registries with fractional exponents (exponent type compared). Round 7: the battery uses a prefix defined after the copy. Round 8: edits of the preprocessors list in the deep-copy histories.",
         design="5/C18"),
     "C19": dict(
         technique="Hypothesis over constructor forms x unit pairs x values/errors over 60 decades (oracle: the numbers supplied and the slope from an independent definition reader); Hypothesis expression trees over independent and repeated measurements against an own first-order propagation model (partial derivatives per source variable); notation and format round-trips",
@@ -185,7 +185,7 @@ CHECKS = {
              "dimension and standard deviation must agree (1e-7 of the uncancelled contributions), dimension mismatches must raise. All +/- and a(b) notations x sign "
              "x exponent must parse to the measurement built from the same numbers; all format specs must render without altering the object, plain-text ones parse back "
              "within the printed precision. Sampling only.",
-        note="First-order propagation is the contract of the uncertainties package; higher-order effects are outside the model. Format round-trips are judged at the printed precision (1-2 significant digits of the uncertainty). Later additions: negative relative/Quantity errors, prefixed source units, unit-rewriting helpers on measurements compared with the plain quantity; two parses of one text are independent measurements. Round 7: uncertain zero is not the exact zero; nan on one side of an exponent notation.",
+        note="First-order propagation is the contract of the uncertainties package; higher-order effects are outside the model. Format round-trips are judged at the printed precision (1-2 significant digits of the uncertainty). Later additions: negative relative/Quantity errors, prefixed source units, unit-rewriting helpers on measurements compared with the plain quantity; two parses of one text are independent measurements. Round 7: uncertain zero is not the exact zero; nan on one side of an exponent notation. Round 8: measurements made through a deep-copied registry.",
         design="5/C19"),
     "C20": dict(
         technique="complete enumeration of an independently curated table of ~260 standard values x spellings x {Fraction, float} registries (differential oracle: the table)",
